@@ -13,6 +13,7 @@ sys.path.insert(0, HERE)
 from gen_engine import dumps  # noqa: E402
 
 
+import uidcanon  # noqa: E402
 UNBUILDABLE = [0]      # requests dropped because /repo refused to construct them (per process)
 
 
@@ -145,7 +146,7 @@ def _run_model_chunk(ctx, histories):
     lines = []
     for h in histories:
         lines.append(dumps({"cmd": "reset"}))
-        lines.extend(dumps(j) for j in h)
+        lines.extend(dumps(uidcanon.canon_line(j)) for j in h)      # the request as the server's identifier grammar reads it
     raw = ctx.run_model("Engine", lines)
     outs = []
     i = 0
@@ -191,6 +192,7 @@ def first_divergence(h, impl, model, obs=obs_out):
             return k, "harness", a, b
         if isinstance(b, dict) and "model_error" in b:
             return k, "model-error", a, b
+        a = uidcanon.canon_out(j, a)
         if obs(a) != obs(b):
             return k, "diff", obs(a), obs(b)
     return None
